@@ -152,6 +152,7 @@ def run_check(m, ov, root, tier, in_place, base_sigs):
     res = {}
     with Guard(root, pid, in_place):
         rc, out, wall = run(["./check", pid, "--tier", tier], root, env, CHECK_TIMEOUT)
+        open(os.path.join(WORK, m["id"], "check.out"), "w").write(out)
         res["check_exit"] = rc if rc is not None else "timeout"
         res["check_wall_s"] = round(wall, 1)
         res["signatures"] = re.findall(r"^  signature: (.*)$", out, re.M)
@@ -169,6 +170,7 @@ def run_check(m, ov, root, tier, in_place, base_sigs):
         res["replay_reproduces"] = None
         if viol:
             rrc, rout, rwall = run(["./check", pid, "--tier", tier, "--replay", viol[0][1]], root, env, REPLAY_TIMEOUT)
+            open(os.path.join(WORK, m["id"], "replay.out"), "w").write(rout)
             res["replay_exit"] = rrc if rrc is not None else "timeout"
             res["replay_reproduces"] = rrc == 1
             res["replay_wall_s"] = round(rwall, 1)
@@ -259,7 +261,9 @@ def write_md(results, meta, baselines):
         elif rt["build_failed"]:
             rts = "BUILD FAILED"
         else:
-            rts = "no (%s)" % (", ".join(rt["failed_tests"][:3]) or "rc=%s" % rt["rc"])
+            why = ", ".join(rt["failed_tests"][:3]) or ("timeout after %ds" % REPO_TEST_TIMEOUT if rt["rc"] is None else
+                                                          "panic/exit %s in %s" % (rt["rc"], ", ".join(p.replace("perun.network/go-perun/", "") for p in rt["failed_packages"][:2])))
+            rts = "no (%s)" % why
         sigs = r.get("signatures", [])
         s = "<br>".join("`%s`" % x.replace("|", "\\|") for x in sigs[:3])
         if len(sigs) > 3:
